@@ -105,6 +105,10 @@ type Model struct {
 	// mutating path call must fail and leave the tree as it is; opens that ask for
 	// writing/creating/truncating are outside the model (property C17 covers them).
 	ReadOnly bool
+	// NoTrailingSlash: a trailing slash on a path is not significant. io/fs paths have no
+	// such spelling (fs.ValidPath) and wazero's adapter for fs.FS mounts cleans it away
+	// before the lookup, so "file/" names the file there.
+	NoTrailingSlash bool
 	// Freed records descriptor numbers that were released by close or renumber.
 	Freed map[int32]bool
 	// Reused is set when an open returned a number that had been released before.
@@ -133,7 +137,7 @@ func (m *Model) Seed(root int, path string, dir bool, data []byte) bool {
 	if root < 0 || root >= len(m.Roots) {
 		return false
 	}
-	parent, name, t, errno := walk(m.Roots[root], path)
+	parent, name, t, errno := m.walk(m.Roots[root], path)
 	if errno != 0 || parent == nil || t != nil {
 		return false
 	}
@@ -255,7 +259,7 @@ func CleansToSelf(path string) bool {
 // name but the last must be an existing directory, a trailing slash on the original
 // spelling demands a directory. Absolute paths and paths that climb above the descriptor's
 // directory are refused.
-func resolvePath(dir *Inode, path string) (r resolved) {
+func (m *Model) resolvePath(dir *Inode, path string) (r resolved) {
 	if strings.HasPrefix(path, "/") {
 		r.escape = true
 		return
@@ -269,7 +273,7 @@ func resolvePath(dir *Inode, path string) (r resolved) {
 		r.escape = true
 		return
 	}
-	r.mustDir = strings.HasSuffix(path, "/")
+	r.mustDir = strings.HasSuffix(path, "/") && !m.NoTrailingSlash
 	if len(comps) == 0 {
 		r.self, r.target = true, dir
 		return
@@ -306,8 +310,8 @@ func escapes(path string) bool {
 var failEscape = Expect{Why: "absolute path or path leaving the directory descriptor"}
 
 // walk is resolvePath for plain paths (seeding): parent, last name, target, errno.
-func walk(dir *Inode, path string) (parent *Inode, name string, target *Inode, errno uint32) {
-	r := resolvePath(dir, path)
+func (m *Model) walk(dir *Inode, path string) (parent *Inode, name string, target *Inode, errno uint32) {
+	r := m.resolvePath(dir, path)
 	if r.escape || r.empty || r.self {
 		return nil, ".", dir, 0
 	}
@@ -375,7 +379,7 @@ func (m *Model) PathOpen(dirfd int32, path string, o Open) (Expect, int32) {
 	if m.ReadOnly && (o.Write || o.Creat || o.Trunc || o.Append || o.Excl) {
 		return unspec("write/create open on a read-only mount"), -1
 	}
-	r := resolvePath(d.Ino, path)
+	r := m.resolvePath(d.Ino, path)
 	switch {
 	case r.empty:
 		return unspec("empty path"), -1
@@ -640,7 +644,7 @@ func (m *Model) PathFilestat(dirfd int32, path string) (Expect, bool, int64) {
 	if e != nil {
 		return *e, false, 0
 	}
-	r := resolvePath(d.Ino, path)
+	r := m.resolvePath(d.Ino, path)
 	switch {
 	case r.empty:
 		return unspec("empty path"), false, 0
@@ -671,7 +675,7 @@ func (m *Model) Mkdir(dirfd int32, path string) Expect {
 	if e != nil {
 		return *e
 	}
-	r := resolvePath(d.Ino, path)
+	r := m.resolvePath(d.Ino, path)
 	switch {
 	case r.empty:
 		return unspec("empty path")
@@ -712,7 +716,7 @@ func (m *Model) Rmdir(dirfd int32, path string) Expect {
 	if e != nil {
 		return *e
 	}
-	r := resolvePath(d.Ino, path)
+	r := m.resolvePath(d.Ino, path)
 	switch {
 	case r.empty:
 		return unspec("empty path")
@@ -751,7 +755,7 @@ func (m *Model) Unlink(dirfd int32, path string) Expect {
 	if e != nil {
 		return *e
 	}
-	r := resolvePath(d.Ino, path)
+	r := m.resolvePath(d.Ino, path)
 	switch {
 	case r.empty:
 		return unspec("empty path")
@@ -813,7 +817,7 @@ func (m *Model) Rename(oldfd int32, oldPath string, newfd int32, newPath string)
 	if od.Root != nd.Root {
 		return unspec("rename across mounts")
 	}
-	ro, rn := resolvePath(od.Ino, oldPath), resolvePath(nd.Ino, newPath)
+	ro, rn := m.resolvePath(od.Ino, oldPath), m.resolvePath(nd.Ino, newPath)
 	switch {
 	case ro.empty || rn.empty:
 		return unspec("empty path")
@@ -887,7 +891,7 @@ func (m *Model) RenameSameMissing(oldfd int32, oldPath string, newfd int32, newP
 	if strings.Join(a, "/") != strings.Join(b, "/") {
 		return false
 	}
-	r := resolvePath(od.Ino, oldPath)
+	r := m.resolvePath(od.Ino, oldPath)
 	return r.errno != 0 || (r.target == nil && !r.self && !r.escape && !r.empty)
 }
 
